@@ -419,6 +419,10 @@ spifmem_malloc(const char *filename, unsigned long line, size_t size)
     D_MEM(("%lu bytes requested at %s:%lu\n", size, NONULL(filename), line));
 
     temp = (void *) malloc(size);
+    if (!temp && !size) {
+        /* A request for no bytes may be answered with NULL.  That is not a failure. */
+        return ((void *) NULL);
+    }
     ASSERT_RVAL(!SPIF_PTR_ISNULL(temp), (spif_ptr_t) NULL);
     if (DEBUG_LEVEL >= DEBUG_MEM) {
         memrec_add_var(&malloc_rec, NONULL(filename), line, temp, size);
@@ -511,6 +515,10 @@ spifmem_calloc(const char *filename, unsigned long line, size_t count, size_t si
     D_MEM(("%lu units of %lu bytes each (%lu bytes total) requested at %s:%lu\n",
            count, size, total_size, NONULL(filename), line));
     temp = (void *) calloc(count, size);
+    if (!temp && (!count || !size)) {
+        /* A request for no bytes may be answered with NULL.  That is not a failure. */
+        return ((void *) NULL);
+    }
     ASSERT_RVAL(!SPIF_PTR_ISNULL(temp), (spif_ptr_t) NULL);
     if (DEBUG_LEVEL >= DEBUG_MEM) {
         memrec_add_var(&malloc_rec, NONULL(filename), line, temp, total_size);
